@@ -6,10 +6,12 @@ VERIF = os.path.dirname(os.path.dirname(os.path.abspath(__file__)))
 
 TB = ("Lean 4.33 kernel (axioms propext, Classical.choice, Quot.sound only; audited on every run); the spec layer "
       "(Model/Int32, SigMap, Circuit, Core, Elab: transcription of Factorio 2.0 circuit rules A1-A7; Model/Match: the validator whose acceptance the theorems are about and of the documented Facto semantics); "
-      "the artefact dump (harness/facto_dump.py) and Lean's JSON decoding; the program quantifier is exercised by generation")
+      "the artefact dump (harness/facto_dump.py) and Lean's JSON decoding; the glue that instantiates the per-program theorems (Driver.lean runSem: which circuit "
+      "is validated - original / pruned / cone-restricted / cut -, obsOK and enableIs at the observation points; harness/sem.py: proved vs. searched vs. classified), "
+      "cross-checked by the FRAMEWORK INCONSISTENCY rule (a proved result that the simulation refutes is a violation); the program quantifier is exercised by generation")
 
 CHECKS = {
- "C01": ("proof", "6.C01", "per-program theorem Facto.scalar_end_to_end / observed_scalar_end_to_end: a kernel-verified validator (Model/Match.checkAll + Circuit.checkRanked, soundness in Proofs/MatchSound.lean) accepts the decoded printed blueprint against the Core program produced by the reference elaborator, then every bound output equals its denotation for ALL input values from the settling tick on; programs the validator rejects fall back to failing-input search (simulation) and the known-finding classifier"),
+ "C01": ("proof", "6.C01", "per-program theorem Facto.scalar_end_to_end / observed_scalar_end_to_end: a kernel-verified validator (Model/Match.checkAll + Circuit.checkRanked, soundness in Proofs/MatchSound.lean) accepts the decoded printed blueprint against the Core program produced by the reference elaborator, then every bound output equals its denotation for ALL input values from the settling tick on; a circuit with cycles through irrelevant producers is validated on its pruned / cone-restricted form (prune_run, restrict_run); a result that is neither proved nor refuted is matched against the static signatures of the listed findings and otherwise reported as VIOLATION no-failing-input-found"),
  "C02": ("proof", "6.C02", "per-program theorems Facto.bundle_end_to_end / observed_bundle_end_to_end / wiresum_end_to_end: the verified validator covers bundle literals (incl. shared constant combinators), bundle OP scalar, filters, gates, any/all, selections; accepted programs carry exactly the denoted members for ALL inputs (pointwise equality of wire sums: no member missing, none foreign); rejected programs fall back to failing-input search + known-finding classifier"),
  "C03": ("proof", "6.C03", "per-program one-tick theorem Facto.gated_cell_end_to_end on the decoded blueprint: the circuit is cut at the cell gates, the rest validated by the kernel-verified checkAll on the cut circuit, the gates matched against the write rule (gatedCellIs); in every state settled around the cells the next content is WriteRule.next (data / hold / clear) for all inputs and all contents; stream corollaries cell_follows / cell_holds / cell_zero_before_write; transients between settled states and unproved cells: quasi-static history simulation"),
  "C04": ("proof", "6.C04", "per-program theorem Facto.ring_end_to_end at EVERY tick of the run from the all-zero state: a ring of L arithmetic combinators matched against the written expression (ringCellIs) satisfies value(t+L) = f(value(t)), f = the source expression with the cell holding value(t); no settling hypothesis; latency-1 self-reading combinators also by always_cell_end_to_end; unproved cells and the two-gate (non-optimised) form: latency search by simulation, both optimisation settings"),
